@@ -5,6 +5,7 @@ HARNESSES = {
     'blk': dict(sources=['blk.c'], flags=core.SAN, replay=False),
     'dec': dict(sources=['dec.c'], flags=core.SAN, replay=False),
     'strm': dict(sources=['strm.c'], flags=core.SAN, replay=False),
+    'file': dict(sources=['file.c'], flags=core.SAN, replay=False),
     'frm': dict(sources=['frm.c'], flags=core.SAN, replay=False),
     'dec0': dict(sources=['dec.c'], flags=core.SAN + ['-DLZ4_FAST_DEC_LOOP=0'], replay=False),
 }
@@ -127,5 +128,31 @@ PROPS = {
     steps=[dict(harness='strm', mode='c18')],
     kinds=['block_does_not_decode_against_history', 'ring_decoder_mismatch', 'stream_block_spec_decode_*', 'continue_failed_at_bound', 'saveDict_bad_return', 'fastReset_failed_at_bound', 'sanitizer_abort', 'harness_crash', 'timeout'],
     note='partial: the table invariant of the fast compressor is not yet a theorem; every output of reuse histories (bursts of fast-reset one-shots on contiguous small records, streaming sessions, dictionary loads/attachments, failed limited-output calls, each with the documented reset) is judged by the proved specification decoder against the declared history only',
+ ),
+ 'C20': dict(
+    module='LZ4V.Properties.C20',
+    theorems=[],
+    steps=[dict(harness='file', mode='c20')],
+    kinds=['writeOpen_failed', 'write_failed', 'writeClose_failed', 'readOpen_failed', 'read_*', 'frame_rejected_by_spec_parser', 'frame_has_trailing_bytes', 'frame_content_mismatch', 'header_*',
+           'sanitizer_abort', 'harness_crash', 'timeout'],
+ ),
+ 'C04': dict(
+    module='LZ4V.Properties.C04',
+    theorems=[],
+    steps=[dict(py='c04')],
+    kinds=['compress_exit_nonzero', 'decode_exit_nonzero', 'decode_content_mismatch', 'test_mode_exit_nonzero', 'archive_depends_on_workers_or_run', 'archive_rejected_by_spec', 'archive_content_mismatch',
+           'archive_not_legacy', 'archive_not_lz4_frames', 'cli_header_*', 'sanitizer_abort', 'harness_crash', 'timeout'],
+ ),
+ 'C14': dict(
+    module='LZ4V.Properties.C14',
+    theorems=[],
+    steps=[dict(py='c14')],
+    kinds=['exit0_but_wrong_bytes', 'exit0_on_undecodable_input', 'source_removed_after_failure', 'exit0_despite_fault', 'accepts_offset_zero'],
+ ),
+ 'C15': dict(
+    module='LZ4V.Properties.C15',
+    theorems=[],
+    steps=[dict(py='c15')],
+    kinds=['valid_concatenation_rejected', 'concatenation_wrong_content', 'valid_stream_rejected', 'exit0_but_wrong_bytes'],
  ),
 }
